@@ -792,6 +792,128 @@ def collision_cases(chk, root):
                                            'files': results[0][2]})
 
 
+def write_layouts(chk, root):
+    """random output directories (files that exist, files that do not, symbolic and hard links between the targets, dangling
+    links, links to files outside, a directory in the way, a link to /dev/full) given to the real `write_files` in two orders
+    of the targets: success and every file are the same (the property), and both are what `FilesW.writeFiles` computes
+    (theorems C20_write_files_*)"""
+    from prophyc.generators import base as gbase
+    have_full = os.path.exists('/dev/full')
+    reqs, rows = [], []
+    for li in range(chk.scale(60, 600)):
+        rng = chk.rng
+        n = rng.randint(2, 5)
+        kinds = []
+        for k in range(n):
+            r = rng.random()
+            kinds.append('new' if r < 0.35 else 'old' if r < 0.6 else 'sym' if r < 0.72 else 'hard' if r < 0.78 else 'ext' if r < 0.84 else
+                         'extmissing' if r < 0.9 else 'dir' if r < 0.95 else 'full')
+        plain = [k for k in range(n) if kinds[k] in ('new', 'old', 'dir')]
+        spec = []            # per target: (kind, other target it links to)
+        for k in range(n):
+            kind, to = kinds[k], None
+            if kind == 'full' and not have_full:
+                kind = 'old'
+            if kind == 'sym':
+                others = [j for j in plain if j != k]
+                if others:
+                    to = rng.choice(others)
+                else:
+                    kind = 'new'
+            if kind == 'hard':
+                others = [j for j in range(n) if j != k and kinds[j] == 'old']
+                if others:
+                    to = rng.choice(others)
+                else:
+                    kind = 'old'
+            spec.append((kind, to))
+        # identities: the file a target's open reaches (None: the open fails)
+        ident, node = {}, []
+        for k, (kind, to) in enumerate(spec):
+            if kind in ('new', 'old', 'ext', 'extmissing', 'full'):
+                ident[k] = len(ident) + 1
+        for k, (kind, to) in enumerate(spec):
+            node.append(None if kind == 'dir' or (to is not None and spec[to][0] == 'dir') else ident[k] if to is None else ident[to])
+        exists = {}
+        for k, (kind, to) in enumerate(spec):
+            if kind in ('old', 'ext'):
+                exists[ident[k]] = 'old text of %d, longer than what is generated\n' % k * 3
+            elif kind == 'full':
+                exists[ident[k]] = ''
+        full = [ident[k] for k, (kind, to) in enumerate(spec) if kind == 'full']
+        texts = ['generated %d\n' % k * (k + 1) for k in range(n)]
+        order = list(range(n))
+        rng.shuffle(order)
+        orders = [list(range(n)), order if order != list(range(n)) else list(reversed(range(n)))]
+
+        def build(d):
+            os.makedirs(d)
+            where = {}
+            for k, (kind, to) in enumerate(spec):       # the files first, links afterwards
+                p = os.path.join(d, 't%d.py' % k)
+                if kind == 'old':
+                    with open(p, 'w') as f:
+                        f.write(exists[ident[k]])
+                elif kind == 'dir':
+                    os.makedirs(os.path.join(p, 'kept'))
+                elif kind in ('ext', 'extmissing'):
+                    os.makedirs(os.path.join(d, 'elsewhere'), exist_ok=True)
+                    if kind == 'ext':
+                        with open(os.path.join(d, 'elsewhere', 'e%d.py' % k), 'w') as f:
+                            f.write(exists[ident[k]])
+                    os.symlink(os.path.join('elsewhere', 'e%d.py' % k), p)
+                    where[ident[k]] = os.path.join(d, 'elsewhere', 'e%d.py' % k)
+                elif kind == 'full':
+                    os.symlink('/dev/full', p)
+                if kind in ('new', 'old'):
+                    where[ident[k]] = p
+            for k, (kind, to) in enumerate(spec):
+                p = os.path.join(d, 't%d.py' % k)
+                if kind == 'sym':
+                    os.symlink('t%d.py' % to, p)
+                elif kind == 'hard':
+                    os.link(os.path.join(d, 't%d.py' % to), p)
+            return where
+
+        seen = []
+        for oi, o in enumerate(orders):
+            d = os.path.join(root, 'w%d_%d' % (li, oi))
+            where = build(d)
+            try:
+                gbase.write_files([(os.path.join(d, 't%d.py' % k), texts[k]) for k in o])
+                ok, err = True, ''
+            except EnvironmentError as ex:
+                ok, err = False, str(ex)[:160]
+            contents = {}
+            for i, p in sorted(where.items()):
+                contents[i] = open(p).read() if os.path.isfile(p) else None
+            # nothing may be left that the layout does not know (a file made through a dangling link is `where` of its identity)
+            stray = sorted(fn for fn in os.listdir(d) if fn not in ['t%d.py' % k for k in range(n)] + ['elsewhere'])
+            seen.append((ok, contents, stray, err))
+            shutil.rmtree(d, ignore_errors=True)
+        casej = {'targets': [{'name': 't%d.py' % k, 'is': kind, 'link_to': None if to is None else 't%d.py' % to} for k, (kind, to) in enumerate(spec)],
+                 'orders': orders}
+        chk.count(('write-layout', li), any(kind not in ('new', 'old') for kind, _ in spec))
+        chk.bump('write-layout: ' + ('written' if seen[0][0] else 'refused'))
+        for kind, _ in spec:
+            chk.bump('write-layout target: ' + kind)
+        if seen[0][:3] != seen[1][:3]:
+            chk.property_violation(casej, {'what': 'what write_files leaves depends on the order of the targets',
+                                           'first': {'ok': seen[0][0], 'files': seen[0][1], 'stray': seen[0][2], 'error': seen[0][3]},
+                                           'second': {'ok': seen[1][0], 'files': seen[1][1], 'stray': seen[1][2], 'error': seen[1][3]}})
+            continue
+        if not seen[0][0] and any(v is not None and v.startswith('generated') for v in seen[0][1].values()):
+            chk.property_violation(casej, {'what': 'a failing run left generated text behind', 'files': seen[0][1], 'error': seen[0][3]})
+        ids = sorted(i for i in where if i not in full)
+        reqs.append({'op': 'prophyc_write_files', 'targets': [[node[k], texts[k]] for k in orders[0]], 'files': [[i, t] for i, t in sorted(exists.items())],
+                     'full': full, 'ids': ids})
+        rows.append((casej, {'ok': seen[0][0], 'contents': [seen[0][1][i] for i in ids]}))
+    for (casej, impl), m in zip(rows, client.batch(reqs)):
+        chk.corr_compared += 1
+        if m != impl:
+            chk.correspondence_mismatch('FilesW.writeFiles = write_files on an output directory with links', casej, impl, m)
+
+
 def run_c20(tier):
     chk = core.Check('C20', tier)
     chk.rule = ('multi-file and single-file schemas compiled by `python -m prophyc` (python + C++ full + C++ raw outputs) under different '
@@ -864,6 +986,7 @@ def run_c20(tier):
         isar_runs(chk, root)
         collision_cases(chk, root)
         link_layouts(chk, root)
+        write_layouts(chk, root)
         for (casej, impl), m in zip(crows, client.batch(creqs)):
             chk.corr_compared += 1
             want = [{'leaf': r['leaf'] + '.prophy', 'visible': r['visible'], 'parsed': r['parsed']} for r in impl] if isinstance(impl, list) else impl
